@@ -1,0 +1,5 @@
+//go:build !verif
+
+package runtime
+
+func verifPool(ev string, b *Buffer, err error) {}
